@@ -48,9 +48,23 @@ async def parent_map(x: int) -> tuple:
 async def slow_parent(x: int) -> tuple:
     """A task that itself has children (so that cancelling it must stop descendants)."""
     LOG.append(('slow', x))
+    busy('slow-parent-mid-step')      # the cancel may arrive while this step is still running
     r = await get_runtime().map(leaf, [100 * x, 100 * x + 1])
     LOG.append(('slow-done', x))
     return ('s', x, tuple(r))
+
+
+WORLD: list = []        # the running World (for busy())
+
+
+def busy(label: str = 'task-busy') -> None:
+    """A task body that takes a while: a yield point at which every other thread may run (time passing
+    inside one step of a task)."""
+    if WORLD:
+        s = WORLD[0].sched
+        import threading
+        if s.current is not None and threading.current_thread() is s.current.thread:
+            s.park(lambda: True, label)
 
 
 SHAPES = ['two_seq', 'submit', 'map2', 'map3', 'next3', 'nested', 'nested_map', 'two_rev', 'cancel_map', 'cancel_after_next',
@@ -82,6 +96,19 @@ class TreePass(BasePass):
                 if batches > 5:
                     break
             out = ('next', tuple(sorted(got)), len(got))
+        elif s == 'next_mix':
+            f = r.map(leaf, [1, 2, 3])
+            got = list(await r.next(f))
+            busy()
+            if len(got) < 3:
+                got += await r.next(f)
+            busy()
+            x = await r.submit(leaf, 9)          # a different future while the map may still be incomplete
+            rounds = 0
+            while len(got) < 3 and rounds < 5:
+                got += await r.next(f)
+                rounds += 1
+            out = ('mix', tuple(sorted(got)), x)
         elif s == 'nested':
             out = tuple(await r.map(parent, [1, 2]))
         elif s == 'nested_map':
@@ -134,6 +161,7 @@ EXPECT = {
     'map2': (('r', 1), ('r', 2)),
     'map3': (('r', 1), ('r', 2), ('r', 3)),
     'next3': ('next', ((0, ('r', 1)), (1, ('r', 2)), (2, ('r', 3))), 3),
+    'next_mix': ('mix', ((0, ('r', 1)), (1, ('r', 2)), (2, ('r', 3))), ('r', 9)),
     'nested': (('p', 1, ('r', 10)), ('p', 2, ('r', 20))),
     'nested_map': (('p', 1, (('r', 10), ('r', 11))), ('p', 2, (('r', 20), ('r', 21)))),
     'two_rev': (('r', 1), ('r', 2)),
@@ -149,6 +177,7 @@ EXPECT = {
 ONCE = {
     'submit': [('leaf', 1)], 'map2': [('leaf', 1), ('leaf', 2)], 'map3': [('leaf', 1), ('leaf', 2), ('leaf', 3)],
     'next3': [('leaf', 1), ('leaf', 2), ('leaf', 3)],
+    'next_mix': [('leaf', 1), ('leaf', 2), ('leaf', 3), ('leaf', 9)],
     'nested': [('parent', 1), ('parent', 2), ('leaf', 10), ('leaf', 20)],
     'nested_map': [('parent', 1), ('parent', 2), ('leaf', 10), ('leaf', 11), ('leaf', 20), ('leaf', 21)],
     'two_rev': [('leaf', 1), ('leaf', 2)], 'two_seq': [('leaf', 1), ('leaf', 2)],
@@ -224,6 +253,7 @@ def run_scenario(topo: str, shapes: list[str], dev: dict, crashes: dict | None =
     RuntimeTask.task_counter = 0
     sch = Schedule(dev, crashes)
     w = build_world(topo, sch, n_clients=len(shapes), kind=kind, max_steps=max_steps)
+    WORLD[:] = [w]
     line_funcs = None
     if line_level:
         line_funcs = [Worker._process_await, Worker._handle_result, Worker._get_desired_result,
@@ -248,6 +278,7 @@ def run_scenario(topo: str, shapes: list[str], dev: dict, crashes: dict | None =
         return out
     finally:
         w.finish()
+        WORLD[:] = []
 
 
 def tables(w: World) -> dict:
